@@ -4,6 +4,7 @@ use crate::{
         ZnxAddAssign, ZnxCopy, ZnxExtractDigitAddMul, ZnxMulPowerOfTwoAssign, ZnxNormalizeDigit, ZnxNormalizeFinalStep,
         ZnxNormalizeFinalStepAssign, ZnxNormalizeFirstStep, ZnxNormalizeFirstStepAssign, ZnxNormalizeFirstStepCarryOnly,
         ZnxNormalizeMiddleStep, ZnxNormalizeMiddleStepAssign, ZnxNormalizeMiddleStepCarryOnly, ZnxZero,
+        znx_normalize_carry_through_empty_limb_ref,
     },
 };
 
@@ -112,6 +113,12 @@ fn vec_znx_normalize_inter_base2k<R, A, ZNXARI>(
     // If no limbs were discarded, initialize carry to zero
     if a_out_range == 0 {
         ZNXARI::znx_zero(carry);
+    }
+
+    // Limbs between the last limb of res and the first shifted limb of a hold no data,
+    // but the carry still travels through them.
+    for _ in (res_size as i64)..(-limbs_offset) {
+        znx_normalize_carry_through_empty_limb_ref(base2k, carry);
     }
 
     // Zeroes bottom limbs that will not be interacted with
